@@ -101,16 +101,22 @@ MCBytes == {%s}
 
     # ---- 3. rotation + uploader behaviours ----------------------------------
     anchors = [dnum(2019, 12, 28), dnum(2024, 2, 26), dnum(2026, 12, 27), dnum(2021, 6, 1) + ctx.seed % 300]
-    consts = dict(Horizon=8, MaxInc=2, MaxUp=1) if not ctx.thorough() else dict(Horizon=9, MaxInc=2, MaxUp=2)
+    consts = dict(Horizon=8, MaxInc=2, MaxUp=1, MaxSetW=0) if not ctx.thorough() else dict(Horizon=9, MaxInc=2, MaxUp=2, MaxSetW=0)
     cfg = ('SPECIFICATION Spec\nINVARIANTS SpansOK Conservation\nPROPERTIES RotateOpensToday IncOnlyInCurrent UploadAgrees\n'
-           'CHECK_DEADLOCK FALSE\nVIEW View\nCONSTANTS\n Anchors = {%d}\n Horizon = %d\n MaxInc = %d\n MaxUp = %d\n' % (
-               anchors[0], consts['Horizon'], consts['MaxInc'], consts['MaxUp']))
+           'CHECK_DEADLOCK FALSE\nVIEW View\nCONSTANTS\n Anchors = {%d}\n Horizon = %d\n MaxInc = %d\n MaxUp = %d\n MaxSetW = %d\n' % (
+               anchors[0], consts['Horizon'], consts['MaxInc'], consts['MaxUp'], consts['MaxSetW']))
     r = ctx.tlc('CalendarRot', cfg_text=cfg, label='CalendarRot-bfs', timeout=3000)
     if not r.ok:
         raise Infra('CalendarRot: the specification itself violates %s %s\n%s' % (r.error, r.error_name, r.out[-3000:]))
+    # the same with one change of the week-end setting (smaller horizon: every changed setting multiplies the states)
+    cfg2 = ('SPECIFICATION Spec\nINVARIANTS SpansOK Conservation\nPROPERTIES RotateOpensToday IncOnlyInCurrent UploadAgrees\n'
+            'CHECK_DEADLOCK FALSE\nVIEW View\nCONSTANTS\n Anchors = {%d}\n Horizon = %d\n MaxInc = 1\n MaxUp = 1\n MaxSetW = 1\n' % (anchors[0], ctx.pick(3, 4)))
+    r = ctx.tlc('CalendarRot', cfg_text=cfg2, label='CalendarRot-bfs-setw', timeout=3000)
+    if not r.ok:
+        raise Infra('CalendarRot (setw): the specification itself violates %s %s\n%s' % (r.error, r.error_name, r.out[-3000:]))
     # behaviours for replay: simulate walks
     nwalk = ctx.pick(150, 1500)
-    cfg_sim = ('SPECIFICATION Spec\nCHECK_DEADLOCK FALSE\nCONSTANTS\n Anchors = {%s}\n Horizon = 16\n MaxInc = 6\n MaxUp = 3\n' % (
+    cfg_sim = ('SPECIFICATION Spec\nCHECK_DEADLOCK FALSE\nCONSTANTS\n Anchors = {%s}\n Horizon = 16\n MaxInc = 6\n MaxUp = 3\n MaxSetW = 2\n' % (
         ', '.join(str(a) for a in anchors)))
     r = ctx.tlc('CalendarRot', cfg_text=cfg_sim, simulate={'num': nwalk, 'file': True}, depth=ctx.pick(30, 40), label='CalendarRot-sim', count=False)
     if r.error:
@@ -132,10 +138,10 @@ MCBytes == {%s}
             if isinstance(rp, dict):
                 for k, v in rp.items():
                     rep[str(k)] = v
-            steps.append({'op': st['last'], 'day': st['day'], 'tod': st['tod'], 'cur': [st['cur']['b'], st['cur']['e']],
+            steps.append({'op': st['last'], 'w': st['w'], 'day': st['day'], 'tod': st['tod'], 'cur': [st['cur']['b'], st['cur']['e']],
                           'disk': disk, 'reports': rep})
         if steps:
-            behs.append({'id': i, 'w': w, 'steps': steps})
+            behs.append({'id': i, 'w': steps[0]['w'], 'steps': steps})
     if not behs:
         raise Infra('no behaviours from TLC simulate')
     ctx.sample({'kind': 'behaviour', 'w': behs[0]['w'], 'ops': [(s['op'], s['day'], s['tod']) for s in behs[0]['steps'][:12]]})
